@@ -1,1 +1,4 @@
 import SmtpV.Props.C09
+#print axioms SmtpV.Props.C09.C09_insecure_unreachable
+#print axioms SmtpV.Props.C09.C09_b64_roundtrip
+#print axioms SmtpV.Props.C09.C09_empty_initial_response
